@@ -147,6 +147,82 @@ func TestVerifLoadTasksBounded(t *testing.T) {
 			}
 		}
 	}
+	// second family: database rows that differ from one another (source
+	// reference, range, event, presence of the "enabled" key) and sources that
+	// set only one of batch size and concurrency; the file is decoded from text
+	// the way cmd/shovel does. Every task must have its own integration's
+	// source, range and event (the topic filter is the independently known
+	// Keccak-256 of the declared signature).
+	const (
+		transferHash = "0xddf252ad1be2c89b69c2b068fc378daa952ba7f163c4a11628f55a4df523b3ef"
+		approvalHash = "0x8c5be1e5ebec7d5bd14f71427d1e84f3dd0314c0f7b2291e5b200ac8c7c3b925"
+	)
+	evTransfer := `{"name":"Transfer","type":"event","inputs":[{"indexed":true,"name":"from","type":"address","column":"f"},{"indexed":true,"name":"to","type":"address"},{"name":"value","type":"uint256"}]}`
+	evApproval := `{"name":"Approval","type":"event","inputs":[{"indexed":true,"name":"owner","type":"address","column":"f"},{"indexed":true,"name":"spender","type":"address"},{"name":"value","type":"uint256"}]}`
+	tbl := func(n string) string {
+		return `{"name":"` + n + `","columns":[{"name":"f","type":"bytea"}]}`
+	}
+	rows := []string{
+		`{"name":"da","enabled":true,"sources":[{"name":"fs","start":100,"stop":200}],"table":` + tbl("tda") + `,"event":` + evTransfer + `}`,
+		`{"name":"db","enabled":true,"sources":[{"name":"bonly","start":5}],"table":` + tbl("tdb") + `,"event":` + evApproval + `}`,
+		`{"name":"dc","sources":[{"name":"fs"}],"table":` + tbl("tdc") + `,"event":` + evTransfer + `}`,
+		`{"name":"dd","enabled":true,"sources":[{"name":"conly","start":9,"stop":9},{"name":"zero","start":9,"stop":3}],"table":` + tbl("tdd") + `,"event":` + evApproval + `}`,
+	}
+	fileText := `{"eth_sources":[
+ {"name":"fs","chain_id":11,"url":"http://127.0.0.1:1","batch_size":7,"concurrency":2},
+ {"name":"bonly","chain_id":12,"url":"http://127.0.0.1:1","batch_size":13},
+ {"name":"conly","chain_id":13,"url":"http://127.0.0.1:1","concurrency":4},
+ {"name":"zero","chain_id":14,"url":"http://127.0.0.1:1","concurrency":0,"batch_size":6}],
+"integrations":[
+ {"name":"fa","enabled":true,"sources":[{"name":"bonly","start":77,"stop":77}],"table":` + tbl("tfa") + `,"event":` + evTransfer + `}]}`
+	wantFam2 := map[string]string{
+		"fs/da":    "start=100 stop=200 chain=11 batch=7 conc=2 topic=" + transferHash,
+		"bonly/db": "start=5 stop=0 chain=12 batch=13 conc=1 topic=" + approvalHash,
+		"conly/dd": "start=9 stop=9 chain=13 batch=1 conc=4 topic=" + approvalHash,
+		"zero/dd":  "start=9 stop=3 chain=14 batch=6 conc=1 topic=" + approvalHash,
+		"bonly/fa": "start=77 stop=77 chain=12 batch=13 conc=1 topic=" + transferHash,
+	}
+	perms := [][]int{{0, 1, 2, 3}, {1, 0, 3, 2}, {3, 2, 1, 0}, {2, 3, 0, 1}, {0}, {1}, {3}}
+	for _, perm := range perms {
+		cases++
+		var file config.Root
+		if err := json.Unmarshal([]byte(fileText), &file); err != nil {
+			fail("second family: decoding the file: %v", err)
+			break
+		}
+		fpg := &fakePG{}
+		present := map[string]bool{"fa": true}
+		for _, k := range perm {
+			fpg.integrations = append(fpg.integrations, rows[k])
+			present[[]string{"da", "db", "dc", "dd"}[k]] = true
+		}
+		tasks, err := loadTasks(context.Background(), fpg.pool(t), file)
+		if err != nil {
+			fail("second family, rows %v: loadTasks: %v", perm, err)
+			continue
+		}
+		got := map[string]string{}
+		for _, task := range tasks {
+			topic := ""
+			if tp := task.filter.Topics(); len(tp) > 0 && len(tp[0]) > 0 {
+				topic = tp[0][0]
+			}
+			got[task.srcName+"/"+task.destConfig.Name] = fmt.Sprintf("start=%d stop=%d chain=%d batch=%d conc=%d topic=%s", task.start, task.stop, task.srcChainID, task.batchSize, task.concurrency, topic)
+		}
+		for k, w := range wantFam2 {
+			ig := k[strings.Index(k, "/")+1:]
+			if !present[ig] {
+				continue
+			}
+			if got[k] != w {
+				fail("second family, rows %v: task %s is %q, want %q", perm, k, got[k], w)
+			}
+			delete(got, k)
+		}
+		for k, g := range got {
+			fail("second family, rows %v: unexpected task %s (%s)", perm, k, g)
+		}
+	}
 	fmt.Printf("BOUNDED cases=%d failures=%d exhaustive=true\n", cases, fails)
 	if fails > 0 {
 		t.Fail()
